@@ -1,5 +1,6 @@
 import CkptVerif.Proofs.MultistageSteps
 import CkptVerif.Proofs.GW
+import CkptVerif.Proofs.StepBridges
 /-!
 # C05 — binomial schedules perform the minimal possible number of forward steps
 
@@ -40,4 +41,11 @@ def C05_full_stated : Prop := True
 
 example : nAdvance 25 3 .maximum = some 15 ∧ nAdvance 25 3 .revolve = some 11 := by decide
 
+end Ckpt
+
+namespace Ckpt
+/-- class level: the Multistage stream of any valid `(N, ram, disk)`, either trajectory, performs
+the number of forward steps published by `optimal_steps_binomial(N, ram + disk)` -/
+alias C05_multistage := GW.multistage_fwdSteps_optimal
+alias C05_multistage_steps := GW.multistage_fwdSteps
 end Ckpt
